@@ -179,16 +179,16 @@ def run_navigation(s1, t1, r1, s2, t2, q, rtsel, flags, split):
                 continue
             if so and to:
                 return False
-            if {o["id"] for o in got} != exp_rels:
+            if sorted(o["id"] for o in got) != sorted(exp_rels):          # each relationship once (multiplicity matters, not only membership)
                 return False
             rel_to = api.related_to(arg, rt, so, to)
             want = set(exp_ids)
             if name in ("composite", "environment") and K.open("C18-composite-related-to"):
                 continue
-            if {o["id"] for o in rel_to} != want:
+            if sorted(o["id"] for o in rel_to) != sorted(want):           # each related object once, also when two relationships lead to it
                 return False
             only_tools = api.related_to(arg, rt, so, to, filters=[Filter("type", "=", "tool")])
-            if {o["id"] for o in only_tools} != {i for i in want if i.startswith("tool--")}:
+            if sorted(o["id"] for o in only_tools) != sorted(i for i in want if i.startswith("tool--")):
                 return False
     return True
 
